@@ -45,6 +45,12 @@ def menu(d):
     M["ok_plain"] = ("loads", H + "target g (shots=10)\nG | 0\nMeasureX | 0\nH(q0) | 1\n")
     M["ok_inc"] = ("loads", H + inc("sub.xbb") + "\nSub(x=2) | [3, 4]\nSub(x=3) | [5, 6]\n")
     M["ok_inc_file"] = ("load", os.path.join(d, "main_ok.xbb"))
+    M["ok_inc_dup"] = ("loads", H + inc("sub.xbb") + inc("sub.xbb") + "\nSub(x=2) | [3, 4]\n")
+    M["ok_inc_nested_dup"] = ("load", os.path.join(d, "main_nested_dup.xbb"))
+    # the same functions at numerically equal arguments of different types (the type decides the result)
+    M["ok_fn_real"] = ("loads", H + "G(sqrt(4.0), log(1.0), exp(1.0), arccos(1.0), sqrt(-4.0), arctan(0.0)) | 0\n")
+    M["ok_fn_complex"] = ("loads", H + "G(sqrt(4+0j), log(1+0j), exp(1+0j), arccos(1+0j), sqrt(-4+0j), arctan(0j)) | 0\n")
+    M["ok_fn_int"] = ("loads", H + "int k = 4\nG(sqrt(k), log(1), exp(1), arccos(1), sqrt(-k), arctan(0)) | 0\n")
     M["bad_lex"] = ("loads", H + "int n = 7\n$\n")
     M["bad_syntax"] = ("loads", H + "int n = 7\nG( | 0\n")
     # scripts whose evaluation goes through process-wide numeric settings: singular but valid values, failing divisions
@@ -94,7 +100,7 @@ def menu(d):
 
 SUB = {"v1": "name Sub\nversion 1.0\n\nfloat n = 0.25\nA({x}, n) | 0\nB | [1, 0]\n",
        "v2": "name Sub\nversion 1.0\n\nfloat n = 0.75\nC(n, {x}) | 1\nB | [0, 1]\nD | 0\n"}
-USES_SUB = ("ok_inc", "ok_inc_file", "bad_inc_call", "bad_inc_second")
+USES_SUB = ("ok_inc", "ok_inc_file", "bad_inc_call", "bad_inc_second", "ok_inc_dup", "ok_inc_nested_dup")
 
 
 def write_files(d):
@@ -107,6 +113,8 @@ def write_files(d):
         os.makedirs(os.path.join(d, proj), exist_ok=True)
         w(proj + "/sub.xbb", "name Sub\nversion 1.0\n\nA({x}, %s) | 0\nB | %s\n" % (val, modes))
         w(proj + "/main.xbb", H + 'include "sub.xbb"\n\nSub(x=1) | [2, 3]\n')
+    w("lib_dup.xbb", "name Lib\nversion 1.0\ninclude \"sub.xbb\"\n\nSub(x=5) | [0, 1]\nL | 0\n")
+    w("main_nested_dup.xbb", H + 'include "lib_dup.xbb"\ninclude "sub.xbb"\n\nLib | [2, 3]\nSub(x=1) | [4, 5]\n')
     w("main_second_bad.xbb", H + 'include "sub.xbb"\ninclude "broken.xbb"\n\nSub(x=1) | [1, 2]\n')
 
 
@@ -335,6 +343,15 @@ def run(ctx):
     L = 2 if ctx.quick else 3
     raw = [h for n in range(1, L + 1) for h in itertools.product(keys, repeat=n)] if L == 2 else \
           [h for h in itertools.product(keys, repeat=2)] + [h for h in itertools.product(keys, repeat=3)]
+    # (3') repetition: the same call again and again, and two calls alternating - a counter, a cache or a table that
+    # fills up a little with every call only shows after many of them
+    R = 24 if ctx.quick else 60
+    nonfs = [k for k in keys if M[k][0] != "fs"]
+    reps = [(k,) * R for k in nonfs]
+    alt = [("ok_inc_dup", "ok_inc"), ("ok_inc_nested_dup", "bad_inc_syntax"), ("bad_inc_missing", "ok_inc_file"), ("fs_sub_v2", "ok_inc_dup", "fs_sub_v1", "ok_inc_dup"),
+           ("ok_fn_real", "ok_fn_complex", "ok_fn_int"), ("ok_tmpl", "bad_undef_tmpl"), ("ok_tdm", "probe_plain_p0"), ("rel_projA", "rel_projB"), ("bad_syntax", "ok_plain"), ("bad_loop", "ok_loop")]
+    reps += [tuple(a) * (R // len(a)) for a in alt]
+    raw = raw + reps
     raw = common.shard(raw, ctx.seed)
     res = pool.pmap(_hist, [(d, h) for h in raw], chunk=8)
     raw_steps = 0
@@ -362,7 +379,8 @@ def run(ctx):
     cov = {"states": len(seen), "transitions": transitions + raw_steps, "traces_validated_against_impl": len(raw) + transitions + len(pairs),
            "samples": [list(h) for h in common.sample(raw, 4)] + [{"state": v[1][:200], "reached_via": list(v[0])} for v in list(seen.values())[:4]],
            "bfs": {"states": len(seen), "transitions": transitions, "state_changing_transitions": nontrivial, "events": len(keys)},
-           "raw_histories": {"max_length": L, "histories": len(raw), "steps_compared": raw_steps}, "sharing_pairs": len(pairs),
+           "raw_histories": {"max_length": L, "histories": len(raw) - len(reps), "steps_compared": raw_steps},
+           "repetition_histories": {"each_event_repeated": R, "alternations": [list(a) for a in alt], "histories": len(reps)}, "sharing_pairs": len(pairs),
            "distinct_outcomes_per_script_max": max(len(v) for v in outcomes_per_script.values()) if outcomes_per_script else 0,
            "pristine_outcomes": {"%s@%s" % k: v[1][:60] for k, v in PRV.items()},
            "evaluations": transitions + raw_steps + len(pairs), "distinct_nontrivial": len(raw),
